@@ -97,6 +97,11 @@ def observe_and_judge(rep, progs, optsets, family, tag, rng, variant_share=0.25,
             jobs.append({'id': '%s|%s|vABi' % (pid, on), 'p': p, 'variant': 0, 'opts': o, 'names': {'x': 'A', 'y': 'B'}, 'imports': True})
             jobs.append({'id': '%s|%s|vi' % (pid, on), 'p': p, 'variant': 0, 'opts': o, 'imports': True})
             jobs.append({'id': '%s|%s|vABh' % (pid, on), 'p': p, 'variant': 0, 'opts': o, 'names': {'x': 'A', 'y': 'B'}, 'heavy': ['y']})
+            # one name an alias-less import spelled like a generated name, the other cheap to rename and mentioned more often (it is assigned first and may take
+            # the import's spelling: the import must then be renamed although that costs bytes)
+            jobs.append({'id': '%s|%s|vABixh' % (pid, on), 'p': p, 'variant': 0, 'opts': o, 'names': {'x': 'A', 'y': 'B'}, 'imports': ['x'], 'heavy': ['y']})
+            jobs.append({'id': '%s|%s|vABiyh' % (pid, on), 'p': p, 'variant': 0, 'opts': o, 'names': {'x': 'A', 'y': 'B'}, 'imports': ['y'], 'heavy': ['x']})
+            jobs.append({'id': '%s|%s|vBAixh' % (pid, on), 'p': p, 'variant': 0, 'opts': o, 'names': {'x': 'B', 'y': 'A'}, 'imports': ['x'], 'heavy': ['y']})
     return judge_jobs(rep, jobs, family, tag)
 
 
